@@ -126,6 +126,18 @@ def build(family, report):
       [hdr + ":eigenvalues"], ["C05", "C13"], expect=["loop_invariant_step"])
     G("eigenvectors", sbase + t_ex + s_ex.harness("h", arb_state() + "  g_prefix = IVEC_NEW(ND_SIZE()); Index nvec = nondet_Index();", "S, nvec"), "h", "eigenvectors",
       [hdr + ":eigenvectors(nvec)", hdr + ":eigenvectors()"], ["C05", "C13"], expect=["loop_invariant_step", "Eigen index assertion"])
+    # ---- shift-and-invert overrides of sort_ritzpair
+    t_sh, s_sh, ops = skel.f_shift_sort(gen, rep)
+    skel.f_shift_ctor(rep)
+    bt = skel.BT_DEFS + "Index g_ia_unused;\n"
+    G("shift.sort_ritzpair", sbase + skel.BT_DEFS + ordf2 + s_sr.stub() + t_sh + s_sh.harness("h", A + "  SortRule sort_rule = nondet_int();", "S, sort_rule"),
+      "h", "shift_sort_ritzpair", [("GenEigsRealShiftSolver.h" if gen else "SymEigsShiftSolver.h") + ":sort_ritzpair"], ["C01", "C04", "C05", "C13"],
+      expect=["loop_invariant_step"], note="base-class sort_ritzpair replaced by its contract; back-transformation rendered coefficient-wise")
+    if gen:
+        t_cs, s_cs = skel.f_cshift_sort(rep)
+        G("cshift.sort_ritzpair", sbase + skel.CSHIFT_DEFS + ordf2 + s_sr.stub() + t_cs + s_cs.harness("h", A + "  SortRule sort_rule = nondet_int();", "S, sort_rule"),
+          "h", "cshift_sort_ritzpair", ["GenEigsComplexShiftSolver.h:sort_ritzpair"], ["C01", "C05", "C06", "C13", "C14"],
+          expect=["loop_invariant_step", "operator argument"], note="operator shift ghost; probe solves uncounted; base-class sort replaced by its contract")
     _memo[family] = (out, rep)
     report.update(rep)
     return out
